@@ -244,20 +244,39 @@ func cokvs(l []OKV) string {
 func coqBody(c *Case) string {
 	switch c.Proto {
 	case "loki_json", "loki_pb":
-		ss := make([]string, len(c.Body.Loki))
-		for i, s := range c.Body.Loki {
-			es := make([]string, len(s.Entries))
-			for j, e := range s.Entries {
+		centries := func(xs []LEntry) string {
+			es := make([]string, len(xs))
+			for j, e := range xs {
 				v := "None"
 				if e.Val != nil {
 					v = "(Some " + cn(bits(*e.Val)) + ")"
 				}
 				es[j] = fmt.Sprintf("LE %s %s %s", cz(e.Ts), copt(e.Line), v)
 			}
-			ss[i] = fmt.Sprintf("LS %s %s", clabels(s.Labels), clist(es))
+			return clist(es)
 		}
 		if c.Proto == "loki_pb" {
+			ss := make([]string, len(c.Body.Loki))
+			for i, s := range c.Body.Loki {
+				ss[i] = fmt.Sprintf("LS %s %s", clabels(s.Labels), centries(s.Entries))
+			}
 			return "BLokiPb " + clist(ss)
+		}
+		// the members of each stream object in the order the serialiser wrote them
+		ss := make([]string, len(c.members))
+		for i, ms := range c.members {
+			xs := make([]string, len(ms))
+			for j, m := range ms {
+				switch m.kind {
+				case "lbl":
+					xs[j] = "MLbl " + clabels(m.labels)
+				case "ent":
+					xs[j] = "MEnt " + centries(m.entries)
+				default:
+					xs[j] = "MOther"
+				}
+			}
+			ss[i] = clist(xs)
 		}
 		return "BLoki " + clist(ss)
 	case "prw":
@@ -361,5 +380,9 @@ func coqCase(c *Case) string {
 	case "error", "timeout":
 		err = "EError"
 	}
-	return fmt.Sprintf("Case %d (%s) %d%%N\n    %s\n    %s %s", c.ID, coqBody(c), c.CtxTTL, clist(tab), clist(chunks), err)
+	cache := "CMiss"
+	if c.Cache == "set" {
+		cache = "CSet"
+	}
+	return fmt.Sprintf("Case %d (%s) %d%%N %s\n    %s\n    %s %s", c.ID, coqBody(c), c.CtxTTL, cache, clist(tab), clist(chunks), err)
 }
